@@ -24,6 +24,7 @@ type LoadConfig struct {
 }
 
 type Program struct {
+	Stdlib map[string]bool
 	Prog  *ssa.Program
 	Pkgs  []*ssa.Package
 	PPkgs []*packages.Package
@@ -46,7 +47,11 @@ func Load(lc LoadConfig) (*Program, error) {
 		return nil, err
 	}
 	var errs []string
+	stdlib := map[string]bool{}
 	packages.Visit(initial, nil, func(pkg *packages.Package) {
+		if pkg.Module == nil {
+			stdlib[pkg.PkgPath] = true
+		}
 		for _, e := range pkg.Errors {
 			errs = append(errs, e.Error())
 		}
@@ -59,7 +64,7 @@ func Load(lc LoadConfig) (*Program, error) {
 	}
 	prog, pkgs := ssautil.AllPackages(initial, ssa.InstantiateGenerics|ssa.SanityCheckFunctions&0)
 	prog.Build()
-	return &Program{Prog: prog, Pkgs: pkgs, PPkgs: initial, Fset: prog.Fset}, nil
+	return &Program{Stdlib: stdlib, Prog: prog, Pkgs: pkgs, PPkgs: initial, Fset: prog.Fset}, nil
 }
 
 func NewEngine(pr *Program, cfg Config) *Engine {
@@ -93,6 +98,7 @@ func NewEngine(pr *Program, cfg Config) *Engine {
 		e.pkgByPath[pk.Pkg.Path()] = pk
 	}
 	e.intrinsics = builtinIntrinsics()
+	stdlibSet = pr.Stdlib
 	return e
 }
 
@@ -113,7 +119,12 @@ func (e *Engine) runtimeErrorType() types.Type {
 	return types.Universe.Lookup("error").Type()
 }
 
+var stdlibSet map[string]bool
+
 func isStdlib(path string) bool {
+	if stdlibSet != nil {
+		return stdlibSet[path]
+	}
 	first := path
 	if i := strings.Index(path, "/"); i >= 0 {
 		first = path[:i]
